@@ -32,9 +32,9 @@ Proof. exact C03_order_independent. Qed.
 Print Assumptions C03_order_free.
 
 (* the propagation never runs out of the fuel the model gives it (termination), for every rule *)
-Theorem C03_terminates : forall F orig s,
+Theorem C03_terminates : forall (Val : Type) (F : rule Val) orig s,
     drain F orig (S (S (length (g s)))) (S (S (length (g s) + length (g s)))) s <> None.
-Proof. exact drain_fuel_estep. Qed.
+Proof. intros Val. exact (@drain_fuel_estep Val). Qed.
 Print Assumptions C03_terminates.
 
 (* graphs built by script operations are well formed; new nodes keep the graph acyclic *)
